@@ -266,3 +266,40 @@ def run(A, R: Report, thorough: bool):
                                                                               or (e.kind == 'FS_RENAME' and e.source is not None and same_path(e.source, tmp)))]
             R.check(not bad, 'R05.4', f'{ci.short}.{mname}', key_of('resumable', mname, [e.kind for e in bad]), 'resumable work directory kept',
                     'the resumable work directory is deleted or moved away', witness=[e.describe() for e in bad], where=where(f))
+
+    # ---- R05.6 every attempt starts from an empty temporary
+    R.rule('R05.6', 'a new attempt never builds on leftovers of an earlier one: work directories are wiped before use, temporary files are opened truncating (never appended to)', floor=3)
+    for ci in dird.all_subclasses():
+        if ci in cont.all_subclasses():
+            continue   # resumable by design (R05.4)
+        f = ci.lookup('init_persistence')
+        tmp = A.sym.func_term(ci.lookup('tmp_path'), ('inst', ci))
+        evs = E.collect(Ctx(f, ('inst', ci)), kinds=FS_MUTATING)
+        mk = [e for e in evs if e.kind == 'FS_MKDIR' and e.target is not None and same_path(e.target, tmp)]
+        dl = [e for e in evs if e.kind == 'FS_DELETE' and e.target is not None and same_path(e.target, tmp)]
+        if not mk:
+            R.undecided('R05.6', f'{ci.short}.init_persistence', 'creation of the work directory not recognised', where=where(f))
+            continue
+        cfg6 = A.cfg(f)
+        ordered = bool(dl) and all(any(cfg6.path_exists([a.id for a in cfg_nodes_for(cfg6, d.root_node)], [b.id for b in cfg_nodes_for(cfg6, m.root_node)]) for d in dl) for m in mk)
+        R.check(ordered, 'R05.6', f'{ci.short}.init_persistence', key_of('fresh-workdir', bool(dl), ordered), 'an existing work directory is removed before it is created anew',
+                'the work directory of an earlier, killed attempt is reused as it is: files the new run does not overwrite are published with the new result',
+                witness=[e.describe() for e in mk + dl], where=where(f))
+    n_w = 0
+    writers = [(ci, m) for ci, _ in persistent_data_classes(A) for m in ('save', 'set_value', 'finished')] + [(None, 'write_jsons')]
+    for ci, mname in writers:
+        f = ci.lookup(mname) if ci is not None else A.func(mname)
+        if f is None:
+            continue
+        for e in E.collect(Ctx(f, ('inst', ci) if ci is not None else None), kinds=('FS_WRITE',)):
+            if 'mode=' not in e.detail:
+                continue
+            mode = e.detail.split('mode=')[1].strip()
+            n_w += 1
+            construct = f'{ci.short + "." if ci is not None else ""}{mname}: `{src(e.site)[:50]}`'
+            if mode in ('None',):
+                R.undecided('R05.6', construct, 'open mode is not a literal', where=where(f, e.root_node))
+            else:
+                R.check('a' not in mode and 'x' not in mode and '+' not in mode.replace('w+', ''), 'R05.6', construct, key_of('open-mode', construct.split(':')[0], mode), f'opened with mode {mode} (truncates)',
+                        f'the file is opened with mode `{mode}`: the partial file of an earlier failed attempt is extended (or blocks the new attempt) and the mixture is published', where=where(f, e.root_node))
+    R.require(n_w >= 2, f'anchor: expected several file-opening writers on the save paths, found {n_w}')
